@@ -78,10 +78,20 @@ fn gen(rng: &mut Rng, tier: Tier) -> Vec<Case> {
         }
         out.push(Case::new(if small { "boundary" } else { "random" }, enc(&C { a, b })));
     }
+    if tier == Tier::Thorough {
+        // LARGE sets (see lap::gen_large_hist), the second one a shifted variant of the same construction
+        for &n in LARGE_SIZES {
+            let (a, _) = gen_large_hist(rng, n, 0);
+            let (mut b, _) = gen_large_hist(rng, n / 2 + 4500, 0);
+            b.shift_up(rng.range(1, 9));
+            if rng.chance(1, 2) { b.ops.push(Op::Merge); }
+            out.push(Case::new("large", push_flavour(enc(&C { a, b }), large_ltype(rng))));
+        }
+    }
     // coordinate-type flavours: every generated (non-exhaustive) case is, half of the time, run over another instantiation of
     // `Lapper<I, _>`; for the narrow types a far-away interval is added so that the set spans more than half of the type's range
     for c in out.iter_mut() {
-        if c.stream == "exhaustive" { continue; }
+        if c.stream == "exhaustive" || c.stream == "large" { continue; }
         let ty = gen_ltype(rng);
         if ty == 0 { continue; }
         if let Some(mut d) = dec(&c.input) { if rng.chance(1, 2) { spread_for_type(rng, &mut d.a, ty, false); } c.input = push_flavour(enc(&d), ty); }
